@@ -74,3 +74,11 @@ def skips_keyword_only_arguments(func):
 def salted_key(name, seed):
     # positive control for R7.ORD (hash clause): a value derived from hash() of a string differs between processes
     return seed + hash(name) % 1000
+
+
+def calls_model_dag_on_whole_grids(model, grids):
+    # positive control for R10.SCALAR: the concatenated model function is evaluated on whole arrays
+    from dags import concatenate_functions
+
+    f = concatenate_functions(functions=model.functions, targets=["utility"])
+    return f(**grids)
